@@ -523,32 +523,32 @@ func setCompareOperators(r *RulesBasedSamplerCondition, condition string) error 
 		switch condition {
 		case NEQ:
 			r.Matches = func(spanValue any, exists bool) bool {
-				return convertToString(spanValue) != conditionValue
+				return exists && convertToString(spanValue) != conditionValue
 			}
 			return nil
 		case EQ:
 			r.Matches = func(spanValue any, exists bool) bool {
-				return convertToString(spanValue) == conditionValue
+				return exists && convertToString(spanValue) == conditionValue
 			}
 			return nil
 		case GT:
 			r.Matches = func(spanValue any, exists bool) bool {
-				return convertToString(spanValue) > conditionValue
+				return exists && convertToString(spanValue) > conditionValue
 			}
 			return nil
 		case GTE:
 			r.Matches = func(spanValue any, exists bool) bool {
-				return convertToString(spanValue) >= conditionValue
+				return exists && convertToString(spanValue) >= conditionValue
 			}
 			return nil
 		case LT:
 			r.Matches = func(spanValue any, exists bool) bool {
-				return convertToString(spanValue) < conditionValue
+				return exists && convertToString(spanValue) < conditionValue
 			}
 			return nil
 		case LTE:
 			r.Matches = func(spanValue any, exists bool) bool {
-				return convertToString(spanValue) <= conditionValue
+				return exists && convertToString(spanValue) <= conditionValue
 			}
 			return nil
 		}
@@ -699,15 +699,15 @@ func setMatchStringBasedOperators(r *RulesBasedSamplerCondition, condition strin
 	switch condition {
 	case StartsWith:
 		r.Matches = func(spanValue any, exists bool) bool {
-			return strings.HasPrefix(convertToString(spanValue), conditionValue)
+			return exists && strings.HasPrefix(convertToString(spanValue), conditionValue)
 		}
 	case Contains:
 		r.Matches = func(spanValue any, exists bool) bool {
-			return strings.Contains(convertToString(spanValue), conditionValue)
+			return exists && strings.Contains(convertToString(spanValue), conditionValue)
 		}
 	case DoesNotContain:
 		r.Matches = func(spanValue any, exists bool) bool {
-			return !strings.Contains(convertToString(spanValue), conditionValue)
+			return exists && !strings.Contains(convertToString(spanValue), conditionValue)
 		}
 	}
 
@@ -740,7 +740,7 @@ func setInBasedOperators(r *RulesBasedSamplerCondition, condition string) error 
 		}
 		matches = func(spanValue any, exists bool) bool {
 			s := convertToString(spanValue)
-			return values.Contains(s)
+			return exists && values.Contains(s)
 		}
 	case "int":
 		values := generics.NewSet[int]()
@@ -779,7 +779,7 @@ func setInBasedOperators(r *RulesBasedSamplerCondition, condition string) error 
 		r.Matches = matches
 	case NotIn:
 		r.Matches = func(spanValue any, exists bool) bool {
-			return !matches(spanValue, exists)
+			return exists && !matches(spanValue, exists)
 		}
 	}
 
@@ -796,7 +796,7 @@ func setRegexStringMatchOperator(r *RulesBasedSamplerCondition) error {
 
 	r.Matches = func(spanValue any, exists bool) bool {
 		s := convertToString(spanValue)
-		return regex.MatchString(s)
+		return exists && regex.MatchString(s)
 	}
 
 	return nil
